@@ -43,12 +43,16 @@ class Run:
         self.decisions = []
         self.alternatives = []
         self.pc = []                # path condition + assumed facts (z3 Bools)
+        self.axioms = []            # definitional instances of assumed (L0) contracts / spec functions: valid on every path
         self.heap = {}
         self.next_addr = 1
         self.trace = []
         self.obligations = []
+        self.obligations_sink = self.obligations   # sub-evaluations (merged clauses) record lemma obligations in the outer run
         self.tags = []
-        self.ghost = {'_qdefs': {}}  # named ghost state (file system, handler lists, definitions of named formulas ...)
+        self.ghost = {'_qdefs': {}, '_pure': {}, '_spec_inst': set(), '_unfolding': {}, '_combs': {}, '_fm_apps': [], '_snoc': {},
+                      '_join_inst': set(), '_wf_maps': set(), '_axiom_ids': set(), '_modcache': {}, '_lemma_ids': set()}
+        # named ghost state (file system, handler lists, definitions of named formulas ...) + caches shared with sub-evaluations
         self.inputs = {}            # name -> (kind, term) : the symbols a replay has to decode
         self.assumed = set()        # ids of L0 contracts used on this path
         self.snapshots = []         # (label, pc copy, ghost copy) for crash invariants
@@ -91,18 +95,33 @@ class Run:
         if l0:
             self.assumed.add(l0)
 
+    def axiom(self, fact, l0=None):
+        """a universally valid fact (instance of a definition / assumed library contract): independent of the path"""
+        if l0:
+            self.assumed.add(l0)
+        if fact is True or (not isinstance(fact, bool) and z3.is_true(fact)):
+            return
+        key = fact.get_id()
+        seen = self.ghost.setdefault('_axiom_ids', set())
+        if key in seen:
+            return
+        seen.add(key)
+        self.axioms.append(fact)
+
     def feasible(self, extra):
         _feas_stats['calls'] += 1
         t0 = time.time()
         s = z3.Solver()
         s.set('timeout', self.explorer.feas_timeout_ms)
+        for f in self.axioms:
+            s.add(f)
         for f in self.pc:
             s.add(f)
         for f in self.ghost.get('_qdefs', {}).values():
             s.add(f)
         for f in extra:
             s.add(f)
-        r = s.check()
+        r = timed_check(s, self.explorer.feas_timeout_ms)
         _feas_stats['time'] += time.time() - t0
         return r != z3.unsat
 
@@ -162,16 +181,32 @@ class Run:
         goal = z3.simplify(goal)        # the same normal form as the assumed facts (equal formulas become identical terms)
         m = {'tags': list(self.tags)}
         m.update(meta or {})
-        ob = Obligation(name, kind, list(self.pc) + list(self.ghost.get('_qdefs', {}).values()), goal, m)
+        ob = Obligation(name, kind, list(self.axioms) + list(self.pc) + list(self.ghost.get('_qdefs', {}).values()), goal, m)
         ob.meta['inputs'] = dict(self.inputs)
         ob.meta['trace'] = list(self.trace)
         ob.meta['input_values'] = dict(self.ghost.get('_input_values', {}))
         ob.meta['heap'] = {a: c.copy() for a, c in self.heap.items()}
-        self.obligations.append(ob)
+        if kind != 'lemma':
+            self.obligations.append(ob)
         return ob
 
     def snapshot(self, label):
         self.snapshots.append((label, list(self.pc), dict(self.ghost), list(self.tags)))
+
+
+def timed_check(solver, timeout_ms):
+    """solver.check() with a hard wall-clock limit (z3's own timeout is not honoured inside the sequence solver)"""
+    import threading
+    ctx = solver.ctx
+    t = threading.Timer(timeout_ms / 1000.0 + 0.2, ctx.interrupt)
+    t.start()
+    try:
+        try:
+            return solver.check()
+        except z3.Z3Exception:
+            return z3.unknown
+    finally:
+        t.cancel()
 
 
 class Explorer:
